@@ -66,13 +66,13 @@ def capacity_overflow(obs_or_d, d=None):
       return True
     if "_njmax" in o and np.any(o["nefc"] > o["_njmax"]):
       return True
-    if "_naconmax" in o and o.get("_nacon_raw", 0) > o["_naconmax"]:
+    if "_naconmax" in o and (o.get("_nacon_raw", 0) > o["_naconmax"] or o.get("ncollision", 0) > o["_naconmax"]):
       return True
     return False
   d = obs_or_d
   if np.any(d.overflow.numpy() & core.OVERFLOW_CAPACITY):
     return True
-  return bool(np.any(d.nefc.numpy() > d.njmax) or int(d.nacon.numpy()[0]) > d.naconmax)
+  return bool(np.any(d.nefc.numpy() > d.njmax) or int(d.nacon.numpy()[0]) > d.naconmax or int(d.ncollision.numpy()[0]) > d.naconmax)
 
 
 def ample_caps(mjm, nworld):
